@@ -245,9 +245,11 @@ def split_units(data):
 class Config(object):
     """A tiny codec configuration and its library of real data-unit payloads."""
 
-    def __init__(self, name, profile, fields, frag, sx, sy, depth_ho=0):
+    def __init__(self, name, profile, fields, frag, sx, sy, depth_ho=0, overrides=None, noise=False):
         self.name, self.profile, self.fields, self.frag, self.sx, self.sy, self.depth_ho = (
             name, profile, fields, frag, sx, sy, depth_ho)
+        self.overrides = overrides or {}   # codec feature / video parameter overrides (C10: differing parameters)
+        self.noise = noise                 # white-noise pictures instead of mid-grey ones (C10: distinct contents)
         self.hq = profile == 3
         self.pic_cache = {}
         self.hdr_cache = {}
@@ -273,6 +275,11 @@ class Config(object):
         cf["dwt_depth_ho"] = self.depth_ho
         n = self.sx * self.sy
         cf["picture_bytes"] = (16 if self.hq else 8) * n
+        for k, v in self.overrides.items():
+            if k in cf["video_parameters"]:
+                cf["video_parameters"][k] = v
+            else:
+                cf[k] = v
         return cf
 
     def _serialise(self, seq):
@@ -288,7 +295,11 @@ class Config(object):
             return self.pic_cache[ext]
         I = impl()
         cf = self.features()
-        pics = list(I["repeat_pictures"](I["mid_gray"](cf["video_parameters"], cf["picture_coding_mode"]), 2))
+        if self.noise:
+            from vc2_conformance.picture_generators import white_noise
+            pics = list(white_noise(cf["video_parameters"], cf["picture_coding_mode"], 2, CONFIG_INDEX[self.name]))
+        else:
+            pics = list(I["repeat_pictures"](I["mid_gray"](cf["video_parameters"], cf["picture_coding_mode"]), 2))
         seq = I["make_sequence"](cf, pics)
         version = 3 if ext else 2
         if not ext and (self.frag or self.depth_ho):
